@@ -87,7 +87,7 @@ def symmetries(cx, plane, what):
     e = [cx.real_array("e%d" % i, 3) for i in range(4)]
     c, s_ = cx.real("c", 0.3, 0.9), cx.real("s", 0.3, 0.9)
     if cx.sym:
-        cx.assume(c * c + s_ * s_ == 1, "rotation: c^2+s^2=1")
+        cx.unit_circle(c, s_)
     else:
         n = (c * c + s_ * s_) ** 0.5
         c, s_ = c / n, s_ / n
